@@ -1,0 +1,247 @@
+//go:build verif && linux
+// +build verif,linux
+
+// Verification hook (only compiled with -tags verif). Add-only: nothing in the
+// regular build refers to this file.
+//
+// It builds a Canary on an unprivileged epoll instance and AF_UNIX SOCK_DGRAM
+// socketpairs (one per interface) instead of AF_PACKET sockets, with caller-supplied
+// interface list, ARP cache, route table and event channel. Frames written to the peer
+// end of a socketpair are received by the real Start() loop exactly like frames
+// from a packet socket. InjectFrame re-states the dispatch of that loop for
+// synchronous, in-process search (anything it finds has to be confirmed through
+// Start()); DrainTx pops what send() queued in the transmit ring.
+package canary
+
+import (
+	"context"
+	"fmt"
+	"math/rand"
+	"net"
+	"sync"
+	"syscall"
+	"time"
+
+	"github.com/glycerine/rbuf"
+	"github.com/honeytrap/honeytrap/listener/canary/ethernet"
+	"github.com/honeytrap/honeytrap/listener/canary/ipv4"
+	"github.com/honeytrap/honeytrap/pushers"
+)
+
+type verifSide struct {
+	peers map[string]int // interface name -> peer end of the socketpair
+	own   []int          // canary ends
+	stop  []int          // pipe ends used by VerifStopLoop
+}
+
+var (
+	verifMu    sync.Mutex
+	verifSides = map[*Canary]*verifSide{}
+)
+
+// NewVerif builds a Canary the way New() does, except that every interface gets one end
+// of an AF_UNIX datagram socketpair instead of an AF_PACKET socket and that the ARP cache
+// and route table are supplied by the caller instead of being read from /proc. The
+// interfaces must exist (they are looked up with net.InterfaceByName like in New()).
+func NewVerif(interfaces []string, ac ARPCache, rt RouteTable, events pushers.Channel) (*Canary, error) {
+	epfd, err := syscall.EpollCreate1(0)
+	if err != nil {
+		return nil, fmt.Errorf("epoll_create1: %s", err.Error())
+	}
+
+	if events == nil {
+		events = pushers.MustDummy()
+	}
+
+	l := &Canary{
+		ac:                ac,
+		rt:                rt,
+		epfd:              epfd,
+		descriptors:       map[string]int32{},
+		networkInterfaces: []net.Interface{},
+		r:                 rand.New(rand.NewSource(time.Now().UTC().UnixNano())),
+		knockChan:         make(chan interface{}, 100),
+		events:            events,
+		m:                 sync.Mutex{},
+		ch:                make(chan net.Conn),
+		buffer:            rbuf.NewFixedSizeRingBuf(65535),
+		Interfaces:        interfaces,
+	}
+
+	side := &verifSide{peers: map[string]int{}}
+
+	fail := func(err error) (*Canary, error) {
+		for _, fd := range side.own {
+			syscall.Close(fd)
+		}
+		for _, fd := range side.peers {
+			syscall.Close(fd)
+		}
+		syscall.Close(epfd)
+		return nil, err
+	}
+
+	for _, name := range interfaces {
+		intf, err := net.InterfaceByName(name)
+		if err != nil {
+			return fail(err)
+		}
+
+		fds, err := syscall.Socketpair(syscall.AF_UNIX, syscall.SOCK_DGRAM|syscall.SOCK_CLOEXEC, 0)
+		if err != nil {
+			return fail(fmt.Errorf("socketpair: %s", err.Error()))
+		}
+
+		fd := fds[0]
+		side.own = append(side.own, fd)
+		side.peers[intf.Name] = fds[1]
+
+		if err = syscall.EpollCtl(epfd, syscall.EPOLL_CTL_ADD, fd, &syscall.EpollEvent{
+			Events: syscall.EPOLLIN | syscall.EPOLLERR,
+			Fd:     int32(fd),
+		}); err != nil {
+			return fail(fmt.Errorf("epollctl: %s", err.Error()))
+		}
+
+		l.descriptors[intf.Name] = int32(fd)
+		l.networkInterfaces = append(l.networkInterfaces, *intf)
+	}
+
+	verifMu.Lock()
+	verifSides[l] = side
+	verifMu.Unlock()
+
+	return l, nil
+}
+
+// VerifPeer returns the descriptor whose datagrams arrive as frames on the named
+// interface (-1 when unknown).
+func (c *Canary) VerifPeer(name string) int {
+	verifMu.Lock()
+	defer verifMu.Unlock()
+	if s, ok := verifSides[c]; ok {
+		if fd, ok := s.peers[name]; ok {
+			return fd
+		}
+	}
+	return -1
+}
+
+// VerifStartDetector runs only the knock detector goroutine (for canaries that are
+// driven with InjectFrame and never Start()ed): the packet handlers block on the knock
+// channel once it holds 100 records.
+func (c *Canary) VerifStartDetector(ctx context.Context) {
+	go c.knockDetector(ctx)
+}
+
+// VerifStopLoop makes the goroutine started by Start() return without closing the epoll
+// descriptor under it: a readable pipe is added to the epoll set, recvfrom on it fails
+// with ENOTSOCK and the loop takes its existing "could not receive" exit.
+func (c *Canary) VerifStopLoop() error {
+	var p [2]int
+	if err := syscall.Pipe2(p[:], syscall.O_CLOEXEC); err != nil {
+		return err
+	}
+	verifMu.Lock()
+	if s, ok := verifSides[c]; ok {
+		s.stop = append(s.stop, p[0], p[1])
+	}
+	verifMu.Unlock()
+	if _, err := syscall.Write(p[1], []byte{0}); err != nil {
+		return err
+	}
+	return syscall.EpollCtl(c.epfd, syscall.EPOLL_CTL_ADD, p[0], &syscall.EpollEvent{
+		Events: syscall.EPOLLIN,
+		Fd:     int32(p[0]),
+	})
+}
+
+// VerifClose releases the socketpairs (not the epoll descriptor, which Close() owns).
+func (c *Canary) VerifClose() {
+	verifMu.Lock()
+	s := verifSides[c]
+	delete(verifSides, c)
+	verifMu.Unlock()
+	if s == nil {
+		return
+	}
+	for _, fd := range s.own {
+		syscall.Close(fd)
+	}
+	for _, fd := range s.peers {
+		syscall.Close(fd)
+	}
+	for _, fd := range s.stop {
+		syscall.Close(fd)
+	}
+}
+
+// InjectFrame runs the dispatch of the Start() receive loop for one frame on the
+// caller's goroutine: ethernet.Parse -> (ARP | ipv4.Parse -> handleICMP / handleTCP /
+// handleUDP). Like the loop it discards the handlers' errors. Panics propagate to the
+// caller.
+func (c *Canary) InjectFrame(frame []byte) {
+	n := len(frame)
+	if n == 0 {
+		// no packets received
+		return
+	}
+
+	// the loop parses in place in its receive buffer
+	buffer := make([]byte, n)
+	copy(buffer, frame)
+
+	if eh, err := ethernet.Parse(buffer[:n]); err != nil {
+	} else if eh.Type == EthernetTypeARP && c.doARP {
+		data := make([]byte, len(eh.Payload))
+		copy(data, eh.Payload[:])
+		c.handleARP(data)
+	} else if eh.Type == EthernetTypeIPv4 {
+		if iph, err := ipv4.Parse(eh.Payload[:]); err != nil {
+		} else {
+			data := make([]byte, len(iph.Payload))
+			copy(data, iph.Payload[:])
+
+			switch iph.Protocol {
+			case 1 /* icmp */ :
+				c.handleICMP(eh, iph, data)
+			case 2 /* IGMP */ :
+			case 6 /* tcp */ :
+				c.handleTCP(eh, iph, data)
+			case 17 /* udp */ :
+				c.handleUDP(eh, iph, data)
+			default:
+			}
+		}
+	}
+}
+
+// DrainTx pops the frames queued in the transmit ring (what transmit() would hand to
+// sendto). It must not run concurrently with a sender.
+func (c *Canary) DrainTx() [][]byte {
+	var out [][]byte
+	for {
+		hdr := [2]byte{}
+		if _, err := c.buffer.ReadAndMaybeAdvance(hdr[:], true); err != nil {
+			return out
+		}
+		l := int(hdr[0])<<8 + int(hdr[1])
+		frame := make([]byte, l)
+		n, err := c.buffer.Read(frame)
+		if err != nil {
+			return out
+		}
+		out = append(out, frame[:n])
+	}
+}
+
+// VerifStateCount returns the number of occupied state table slots.
+func (c *Canary) VerifStateCount() int {
+	n := 0
+	for i := range c.stateTable {
+		if c.stateTable[i] != nil {
+			n++
+		}
+	}
+	return n
+}
